@@ -31,7 +31,7 @@ _re_ident = re.compile(r'''(?x)
 _re_ident_or_num = re.compile(r'''(?x)
     [^\W\d]\w*  # alphanumeric identifier
     |
-    ([1-9]\d* | 0)  # purely integer identifier
+    ([1-9][0-9]* | 0)  # purely integer identifier (ASCII digits only)
 ''')
 
 
